@@ -5,6 +5,16 @@ HERE = os.path.dirname(os.path.abspath(__file__))
 BASE = "cd /repo && /venv/bin/python -m pytest -ra -q -p no:cacheprovider --timeout=900 --continue-on-collection-errors"
 
 CHECKS = {
+ "C10": dict(level="model_checking", engine="H",
+   technique="explicit-state BFS over raw-counter histories through the public functions (real code over a simulated kernel) against a reference accumulator; non-initial root states",
+   text="All histories (depth 6-7 per function, 4-5 for both functions interleaved, also started from states that already carry a wrap reminder) of raw counter changes including decreases, devices unplugged/re-plugged (two pluggable NICs, a disk and a partition), cache_clear(), and calls with every nowrap x per-device combination; every returned value is compared with a reference accumulator (raw + sum of previous values at each decrease since (re)appearance/clear), totals with the field-wise sum, and monotonicity is checked independently of the reference.",
+   note="'Went backwards'/'disappeared' are as observed between successive nowrap=True calls of the same function; counters take values {1,5,9}; untouched fields carry distinct constants.",
+   ref="DESIGN.md §4 C10"),
+ "C16": dict(level="model_checking", engine="H+S",
+   technique="explicit-state BFS over oneshot/as_dict event histories + stateless pre-emption-bounded exploration of real thread interleavings (baton scheduler, line-level points)",
+   text="H: all histories (depth 5-6) of enter/exit/exit-by-exception/nested enter/9-14 method calls/source version bumps/zombie/deny/vanish/10 as_dict forms on one object, against a reference per-block cache of first-read versions (values, read counts per source per block, validation-before-query, ad_value, NoSuchProcess propagation). S: 5 two/three-thread programs (block owner vs plain callers, as_dict vs plain, block vs block) under a cooperative scheduler with scheduling points at every source line of the memoize wrapper/oneshot/as_dict code, every simulated OS access and every lock operation; every schedule with <= 2 (thorough 3) pre-emptions is executed; each read yields a new version so each returned value names its read; oracle: no exception/deadlock, value read inside the allowed window, block owner reads each source at most once.",
+   note="Pure-Python state under the GIL: accesses between scheduling points are atomic, so line-level points on the code that touches the shared cache cover all interleavings up to the bound (opcode-level points for two scenarios in the thorough tier). statm is not one of the cached shared sources.",
+   ref="DESIGN.md §4 C16"),
  "C01": dict(level="model_checking", engine="H",
    technique="explicit-state BFS over process-lifetime event histories, every transition executed on the real code in a simulated kernel; syscall log as oracle",
    text="All histories (to the stated depth) over kernel events spawn/exit(zombie)/reap/die on 1-2 recyclable pids and user events new/is_running/name/ppid/process_iter/10 signal+setter actions on up to 2 held objects; after every event the simulated kernel's log of delivered kill/setpriority/ioprio_set/sched_setaffinity/prlimit calls is checked: nothing with pid<=0, exact pid and value, delivered only to the incarnation the object was created for, NoSuchProcess and no delivery when the pid belongs to another incarnation. Plus an exhaustive list of non-positive/out-of-range pids.",
@@ -63,6 +73,8 @@ def main():
         "engines": [
             {"name": "H", "path": "vf/explore/history.py", "serves_properties": ["C01", "C02", "C04", "C10", "C16"],
              "kind_free_text": "explicit-state breadth-first search over event histories; every transition re-executes the real code (replay from the initial state), states canonicalised and de-duplicated, parallel per level"},
+            {"name": "S", "path": "vf/explore/sched.py", "serves_properties": ["C16", "C10", "C07", "C04"],
+             "kind_free_text": "stateless exploration of thread interleavings of the real code: real threads under a baton scheduler, sys.settrace line points + simulated-kernel accesses + cooperative locks, CHESS-style iterative pre-emption bounding, replay-checked"},
             {"name": "F", "path": "vf/explore/deviate.py", "serves_properties": ["C03", "C14", "C15", "C19", "C20"],
              "kind_free_text": "deviation-bounded exhaustive fault enumeration over the OS accesses of the real code (stateless, replay-checked)"},
             {"name": "simk", "path": "vf/simk/", "serves_properties": [c for c in CHECKS],
